@@ -134,8 +134,25 @@ def load_known(prop):
 # running groups
 
 
+GROUP_TIMEOUT_S = int(os.environ.get("VERIF_GROUP_TIMEOUT", "420"))
+
+
+class GroupTimeout(BaseException):
+    pass
+
+
+def _alarm(signum, frame):
+    raise GroupTimeout()
+
+
 def _run_group(modname, gname, tier):
     t0 = time.time()
+    import signal
+    try:
+        signal.signal(signal.SIGALRM, _alarm)
+        signal.alarm(GROUP_TIMEOUT_S)
+    except Exception:  # noqa: BLE001
+        pass
     try:
         sys.path.insert(0, VERIF) if VERIF not in sys.path else None
         mod = importlib.import_module(modname)
@@ -146,10 +163,18 @@ def _run_group(modname, gname, tier):
         if not items:
             items = [dict(name=f"{mod.PROPERTY}/{gname}/-", status=ERROR, backend="-",
                           detail="group produced zero obligations (vacuity guard)", replay=None, canary=False)]
+    except GroupTimeout:
+        items = list(getattr(locals().get("R"), "items", []) or [])
+        items.append(dict(name=f"{modname.split('.')[-1].upper()}/{gname}/time-budget", status=UNDECIDED, backend="-",
+                          detail=f"group did not finish within {GROUP_TIMEOUT_S}s (engine budget): undecided, not a violation", replay=None, canary=False))
     except BaseException as e:  # noqa: BLE001
         items = [dict(name=f"{modname}/{gname}/crash", status=ERROR, backend="-",
                       detail="".join(traceback.format_exception(type(e), e, e.__traceback__))[-3000:],
                       replay=None, canary=False)]
+    try:
+        signal.alarm(0)
+    except Exception:  # noqa: BLE001
+        pass
     from . import sym, extract
     return dict(group=gname, items=items, wall=time.time() - t0, solver_s=sym.STATS.solver_s,
                 queries=sym.STATS.queries, functions=dict(extract.FUNCTIONS_SEEN))
